@@ -435,7 +435,7 @@ Fixpoint map_pairs (h : heap) (l : list val) (items : list (bytes * val)) (order
   | k :: v :: r =>
     match v with VAttrs _ | VMod _ => Unmod | _ =>
     do ks <- txt h k;
-    map_pairs h r (insert ks (box v) items) (order ++ [ks])
+    map_pairs h r (insert ks (box v) items) (if mem ks order then order else order ++ [ks])
     end
   end.
 Definition rt_map (h : heap) (l : list val) : res (val * heap) :=
